@@ -154,6 +154,8 @@ def run_check(modname, tier, seed, replay=None, jobs=16):
             print(f'NOTE finding {key} no longer reproduces (probe passes)')
         elif failing is None and counts.get(key):
             print(f'KNOWN-FINDING: property={prop} {f["what"]} [key={key}; {counts[key]} explored case(s) attributed]')
+    for cid, step, ds in jstats.get('drift', [])[:15]:
+        print(f'DRIFT {cid} step {step}: {ds}  (model/implementation disagreement, not a property violation)')
     violations = [cid for cid in fails if cid not in attributed]
     rdir = os.path.join(VERIF, 'replays', prop)
     shown = 0
@@ -205,6 +207,8 @@ def run_check(modname, tier, seed, replay=None, jobs=16):
                 'reach': feats,
                 'judge_steps': jstats['distinct'],
                 'attributed_to_known_findings': counts,
+                'drift_steps': len(jstats.get('drift', [])),
+                'drift_kinds': sorted({d for _, _, ds in jstats.get('drift', []) for d in ds})[:40],
                 'exhaustive': bool(ctx.get('exhaustive', False)),
                 'record_wall_s': round(rec_s, 2),
                 'tlc_judge_wall_s': round(jstats['tlc_wall_s'], 2),
